@@ -157,6 +157,15 @@ def run_route(case):
                 for k in obj.keys():
                     if name in obj[k].dims:
                         check(obj[k].axes[name].values.tolist() == newlab, "dataset-variable-does-not-see-new-labels", {"what": what, "var": k}, sig)
+            # an attrs entry stored (directly, or before the dimension got this name) under the dimension's name must not
+            # shadow the axis: the name still reads and writes the labels, and the entry is left alone
+            obj.attrs[name] = value if value is not None else "shadow"
+            got = lib(lambda: getattr(obj, name), what=what + " [get with a colliding attrs entry]", sig=sig)
+            check(isinstance(got, np.ndarray) and got.tolist() == newlab, "attrs-entry-shadows-dimension", {"what": what, "got": core.jsonable(got)}, sig)
+            newlab2 = [200 + k for k in range(n)]
+            lib(lambda: setattr(obj, name, newlab2), what=what + " [set with a colliding attrs entry]", sig=sig)
+            check(obj.axes[name].values.tolist() == newlab2 and np.asarray(getattr(obj, name)).tolist() == newlab2, "attrs-entry-shadows-dimension", {"what": what}, sig)
+            check(name in obj.attrs, "dimension-set-removed-attrs-entry", {"what": what}, sig)
         else:
             check(not hasattr(obj, name), "hasattr-before-set", {"what": what}, sig)
             core.must_raise(lambda: getattr(obj, name), (AttributeError,), what + " [get before set]", sig=sig)
